@@ -721,6 +721,7 @@ def run_unit(name, tier, repo=None, cache=None, probes=True):
         helper_requests = []
         for _round in range(5):
             ctx = unitlib.Ctx(repo, unit.NAME, unit.BACKEND)
+            ctx.tier = tier
             ctx.helper_requests = list(helper_requests)
             text = unit.build(ctx)
             if '// @HELPERS' not in text:
